@@ -339,7 +339,12 @@ func judge(c *core.Case, mc *muCase, d *driver, log []event) {
 		finalDone = true
 	}
 	known := map[string]bool{}
+	nBare := 0
 	for _, iv := range d.invites {
+		if iv.Bare {
+			nBare++
+			continue
+		}
 		known[iv.Marker] = true
 		evs := got[iv.Marker]
 		switch {
@@ -352,6 +357,14 @@ func judge(c *core.Case, mc *muCase, d *driver, log []event) {
 			if evs[0].Text != iv.wantText() {
 				c.Violate("muc:invite:fields", "invitation %q delivered with {%s}, sent {%s}", iv.Marker, evs[0].Text, iv.wantText())
 			}
+		}
+	}
+	if nBare > 0 {
+		// bare invitations reach the callback with nothing but (at most) an
+		// address: every one of them is a call with an empty reason
+		c.Count("bare_invitations_sent", nBare)
+		if finalDone && len(got[""]) < nBare {
+			c.Violate("muc:invite:missing", "%d mediated invitation(s) naming only their inviter (<invite from='…'/>) were sent, HandleInvite was called %d time(s) with an empty reason", nBare, len(got[""]))
 		}
 	}
 	var extra []string
